@@ -130,6 +130,11 @@ impl Space for ZoneSweep {
         probes.push((days_from_civil(1, 1, 2) * 86_400, "year_1"));
         probes.push((0, "epoch"));
         probes.push((-1, "epoch-1s"));
+        // both ends of the instant range (judged for zones without a DST rule, see `covered`)
+        probes.push((8_640_000_000_000, "range_end"));
+        probes.push((8_640_000_000_000 - 1, "range_end-1s"));
+        probes.push((-8_640_000_000_000, "range_start"));
+        probes.push((-8_640_000_000_000 + 1, "range_start+1s"));
         let mut n_off = 0u64;
         for (ts, kind) in &probes {
             let covered = *ts <= rz.last_table || !rz.has_rule || rz.rule_years.contains(&civil_from_days(ts.div_euclid(86_400)).0);
